@@ -91,14 +91,14 @@ def run(run):
         cfgs = [("t212", (1, 2, 2, 3)), ("i222", (2, 2, 2, 4))] if light else None
         if light and variant != "c11":
             cfgs = cfgs[:1]
-        trs = c04.run_mq(run, exe, cfgs=cfgs, nrandom=(200 if variant == "c11" else 60) if light else None, tagp=variant + "-", validate=False)
+        trs = c04.run_mq(run, exe, cfgs=cfgs, nrandom=(200 if variant == "c11" else 60) if light else None, tagp=variant + "-", validate=(variant == "c11"))
         for i, t in enumerate(trs):
             hb_check(run, "hb-mq-%s-%d" % (variant, i), t)
         if variant == "c11":
             weaken_sites(run, "messageq", trs[0])
         exe = build_vrt(run, "rb_drv_" + variant, "rb_drv.c", ["librfn/ringbuf.c"], extra_flags=flags)
         trs = c05.run_rb(run, exe, cfgs=(c05.CFGS[:1] if variant != "c11" else c05.CFGS[:4]) if light else None,
-                         nrandom=(300 if variant == "c11" else 80) if light else None, tagp=variant + "-", validate=False)
+                         nrandom=(300 if variant == "c11" else 80) if light else None, tagp=variant + "-", validate=(variant == "c11"))
         for i, t in enumerate(trs):
             hb_check(run, "hb-rb-%s-%d" % (variant, i), t)
         if variant == "c11":
